@@ -4,16 +4,19 @@
 (* (the four built-in definition files, converted mechanically by the      *)
 (* harness) with CompilerCfg.Parse for a list of commands.                 *)
 (* Input file (environment variable CFG_FILE):                             *)
-(*   [table |-> [name |-> compiler], cmds |-> Seq([name, argv : Seq(Tok)])] *)
+(*   [table |-> [name |-> compiler], cmds |-> Seq([name, argv : Seq(Tok)])  *)
+(*    (, user |-> [name |-> compiler])]                                    *)
 (***************************************************************************)
 EXTENDS Naturals, Sequences, FiniteSets, TLC, Json, IOUtils, SequencesExt, CompilerCfg
 In == JsonDeserialize(IOEnv.CFG_FILE)
+\* with a field `user`: the built-in table extended by a user configuration (CompilerCfg.Extend)
+Table == IF "user" \in DOMAIN In THEN Extend(In.table, In.user) ELSE In.table
 VARIABLE i
 Init == i = 1
 ResOut(r) == [outcome |-> r.outcome, unknown_passes |-> r.unknown_passes, unrecognised |-> r.unrecognised,
               configs |-> SetToSeq({[pass |-> x.pass, defines |-> x.defines, ipaths |-> x.ipaths, ifiles |-> x.ifiles,
                                      modes |-> SetToSeq(x.modes), badmodes |-> SetToSeq(x.badmodes)] : x \in r.configs})]
 Next == /\ i <= Len(In.cmds) /\ i' = i + 1
-        /\ PrintT(ToJson([idx |-> i, res |-> ResOut(Parse(In.table, In.cmds[i].name, In.cmds[i].argv))]))
+        /\ PrintT(ToJson([idx |-> i, res |-> ResOut(Parse(Table, In.cmds[i].name, In.cmds[i].argv))]))
 Spec == Init /\ [][Next]_i
 ==============================================================================
